@@ -69,8 +69,23 @@ type window struct {
 	txid     int
 }
 
-func (cs crashsim) Run(c *Case, dir string) *Outcome {
-	out := &Outcome{}
+type stopHistory struct{}
+
+func (cs crashsim) Run(c *Case, dir string) (out *Outcome) {
+	out = &Outcome{}
+	var viols *[]*work.Violation
+	defer func() {
+		if r := recover(); r != nil {
+			if _, ok := r.(stopHistory); !ok {
+				panic(r)
+			}
+			sim.Uninstall()
+			out.Evals = 1
+			if viols != nil {
+				out.Viol = append(out.Viol, (*viols)...)
+			}
+		}
+	}()
 	path := filepath.Join(dir, "db")
 	rpath := filepath.Join(dir, "rec")
 	os.Remove(path)
@@ -86,6 +101,7 @@ func (cs crashsim) Run(c *Case, dir string) *Outcome {
 	disk := sim.NewDisk("")
 	disk.Record = true
 	e := work.NewExec(path, c.Prog.Cfg)
+	viols = &e.Viol
 	e.FileChecks = true
 	ps := c.Prog.Cfg.PageSize
 
@@ -110,6 +126,7 @@ func (cs crashsim) Run(c *Case, dir string) *Outcome {
 				}
 			}
 		}
+		nv := len(e.Viol)
 		check(e.LastTxid, "the newest committed version")
 		for _, id := range sortedReaderIDs(e) {
 			r := e.Readers[id]
@@ -117,6 +134,11 @@ func (cs crashsim) Run(c *Case, dir string) *Outcome {
 				check(r.ID, "the version of an open read transaction")
 				out.probe("writes-checked-against-old-reader", 1)
 			}
+		}
+		if len(e.Viol) > nv {
+			// the write has not happened yet: stop here instead of walking a tree
+			// that is about to be overwritten
+			panic(stopHistory{})
 		}
 		// meta slot of the newest committed version
 		if first <= uint64(e.LastTxid%2) && uint64(e.LastTxid%2) <= last {
